@@ -164,6 +164,10 @@ def handle_kinds(s, handles):
 # ------------------------------------------------------------------------------------------------
 def judge_states(ctx, service, s, handles, result, detail):
     want, mds_of = reference_selection(s, handles, service)
+    if service == 'GetMdState' and detail.get('contextstates_in_getmdib') is False:
+        # provider option: context states are served by GetContextStates only; GetMdib / GetMdState do not contain them (documented behaviour of
+        # SdcProvider.contextstates_in_getmdib) - the selection rules apply to the single states
+        want = Counter({k: n for k, n in want.items() if k[0] != 'ctx'})
     got = observed_selection(result.MdState.State if service == 'GetMdState' else result.ContextState)
     key = 'getmdstate' if service == 'GetMdState' else 'getcontextstates'
     ctx.count(f'{key}.responses')
@@ -223,7 +227,9 @@ def w_states(ctx: core.Ctx, arg):
     weights.update({'context': 30, 'location': 6, 'abort': 1, 'reject': 1, 'rt': 1, 'metric': 5, 'alert': 3, 'descr_create': 5, 'descr_delete': 4})
     for wno in range(arg['worlds']):
         mdib_file = MDIB_FILES[(arg['i'] + wno) % len(MDIB_FILES)]
-        world = World(mdib_file, role_provider=False)
+        ctx_in_getmdib = (arg['i'] + wno) % 3 != 1    # the provider option contextstates_in_getmdib changes the code path of GetMdState
+        world = World(mdib_file, role_provider=False, contextstates_in_getmdib=ctx_in_getmdib)
+        ctx.count(f'world.contextstates_in_getmdib.{ctx_in_getmdib}')
         try:
             mdib = world.mdib
             consumer, _ = world.add_consumer(with_mdib=False)
@@ -245,7 +251,7 @@ def w_states(ctx: core.Ctx, arg):
                     cls = LIST_CLASSES[q % len(LIST_CLASSES)] if q < 2 * len(LIST_CLASSES) else rng.choice(LIST_CLASSES)
                     handles = gen_handles(rng, cls, s, memo)
                     for service in ('GetMdState', 'GetContextStates'):
-                        detail = {'mdib_file': mdib_file, 'service': service, 'list_class': cls, 'mdib_version': s['version'][0]}
+                        detail = {'mdib_file': mdib_file, 'service': service, 'list_class': cls, 'mdib_version': s['version'][0], 'contextstates_in_getmdib': ctx_in_getmdib}
                         key = 'getmdstate' if service == 'GetMdState' else 'getcontextstates'
                         try:
                             if service == 'GetMdState':
@@ -434,7 +440,22 @@ def w_texts(ctx: core.Ctx, arg):
                                 {**detail, 'listed': sorted(langs), 'stored': sorted(want)})
                 ctx.case(('langs', style, len(want)), nontrivial=bool(store))
             patterns = list(range(32)) + [0] + [rng.randrange(32) for _ in range(arg['extra'])]
-            for pattern in patterns:
+            for pno, pattern in enumerate(patterns):
+                if pno == len(patterns) // 2 and store:
+                    # the application revises stored texts in place and adds texts derived from stored ones (copy + new wording), after the
+                    # service has already answered requests about them
+                    import copy as _copy
+                    for t in rng.sample(store, min(len(store), 4)):
+                        lines = rng.choice([1, 2, 3, 4])
+                        t.text = '\n'.join(f'revised {rng.choice(WORDS)} {rng.randrange(1000)}' for _ in range(lines))
+                        ctx.count('store.texts_revised_in_place')
+                    for t in rng.sample(store, min(len(store), 3)):
+                        c = _copy.deepcopy(t)
+                        lines = rng.choice([1, 2, 3, 4])
+                        c.text = '\n'.join(f'derived {rng.choice(WORDS)} {rng.randrange(1000)}' for _ in range(lines))
+                        world.provider.localization_storage.add(c)
+                        store.append(c)
+                        ctx.count('store.texts_derived_from_stored')
                 req = gen_request(rng, pattern, store)
                 send = dict(req)
                 if 'number_of_lines' in req and not ints_ok:
